@@ -27,7 +27,7 @@ INT = lambda: shim.instance("builtins.int")  # noqa: E731
 STR = lambda: shim.instance("builtins.str")  # noqa: E731
 ELL = lambda: shim.expr_stmt(shim.mk(shim.N.EllipsisExpr))  # noqa: E731
 N_TOP = 6
-N_MEMBER = 13
+N_MEMBER = 14
 MAX_TOP = 3 if THOROUGH else 2
 MAX_MEMBERS = 2
 
@@ -153,6 +153,14 @@ def _member(sel, cur, k: int, cq: str, cid: str, idx: int, b: Built, defined: li
         nm = defined[0]
         v = shim.var(nm, INT(), fullname=f"{cq}.{nm}")
         return [shim.assignment([shim.name_expr(nm, nm, node=v)])], [f"{nm} = 5"]
+    if k == 13:  # an enum nested in the class
+        nm = "NE" + n
+        b.features.add("nested-enum")
+        add({"kind": "enum", "id": f"{cid}/{nm}", "owner": cid, "name": nm, "construct": "enum-nested-in-class"})
+        add({"kind": "enum_instance", "id": f"{cid}/{nm}/A", "owner": f"{cid}/{nm}", "name": "A", "construct": "member-of-enum-nested-in-class"})
+        v = shim.var("A", INT(), fullname=f"{cq}.{nm}.A", is_inferred=True)
+        inner = shim.class_def(nm, f"{cq}.{nm}", [shim.assignment([shim.name_expr("A", "A", node=v)])], bases=[shim.base_expr("enum.Enum")])
+        return [inner], [f"class {nm}(Enum):", "    A = 1"]
     # 12: private method
     nm = "_p" + n
     add({"kind": "method", "id": f"{cid}/{nm}", "owner": cid, "name": nm, "static": False, "class_method": False, "property": False})
@@ -222,8 +230,13 @@ def decode_module(sel, cur, mod: str = "m", swap: bool = False) -> Built:
                 v = shim.var(mem, INT(), fullname=f"{MQ}.{nm}.{mem}", is_inferred=True)
                 body.append(shim.assignment([shim.name_expr(mem, mem, node=v)]))
                 b.expect.append({"kind": "enum_instance", "id": f"{eid}/{mem}", "owner": eid, "name": mem})
+            elines = ["    A = 1", "    B = 2"]
+            if rd(sel, cur, 2) == 1:  # an enum with a method (the API model has no place for it: it must simply not disturb the analysis)
+                body.append(_fun("describe", f"{MQ}.{nm}.describe", "self", []))
+                elines += ["", "    def describe(self) -> int: ..."]
+                b.features.add("enum-method")
             defs.append(shim.class_def(nm, f"{MQ}.{nm}", body, bases=[shim.base_expr("enum.Enum")]))
-            lines += [f"class {nm}(Enum):", "    A = 1", "    B = 2", ""]
+            lines += [f"class {nm}(Enum):", *elines, ""]
         elif k == 4:
             nm = f"V{i}"
             v = shim.var(nm, INT(), fullname=f"{MQ}.{nm}", is_inferred=True)
